@@ -17,7 +17,7 @@ RULE = ('per case one confidentiality configuration (COSE_Encrypt0 with A128GCM 
         'rewrites of primary fields, target metadata, security source, scope, IV, ciphertext, tag; wrong / missing key). One evaluation = '
         'one altered reception; distinct = (configuration digest, alteration).')
 COMPONENTS = bc.COMPONENTS
-PROBES = ('class.covered', 'class.other', 'kind.enc0', 'kind.two_targets', 'kind.two_bcb', 'kind.split_assoc', 'kind.foreign', 'alt.bitflip', 'alt.field', 'alt.wrong-key', 'alt.missing-key', 'cov.primary',
+PROBES = ('class.covered', 'class.other', 'kind.enc0', 'kind.two_targets', 'kind.two_bcb', 'kind.split_assoc', 'kind.foreign', 'kind.report', 'probe.report_with_bcb', 'alt.bitflip', 'alt.field', 'alt.wrong-key', 'alt.missing-key', 'cov.primary',
           'cov.target-btsd', 'cov.target-meta', 'cov.source', 'cov.scope', 'cov.iv', 'wire.no_plaintext_window', 'plain.empty', 'accept.on', 'accept.off')
 ASSUMPTIONS = ['plaintext recovery is checked with acceptance enabled; with acceptance off a verified bundle is delivered still encrypted, which the statement allows',
                'COSE_Encrypt with wrapped content keys needs the pycose fork pinned in pyproject.toml and is not exercised (see C03)']
@@ -28,7 +28,12 @@ WATCHDOG_S = 900
 
 
 def gen(ch, tier):
-    kind = ch.choice('kind', ('enc0-128', 'enc0-256', 'foreign', 'enc0-256', 'two-bcb'))
+    kind = ch.choice('kind', ('enc0-128', 'enc0-256', 'foreign', 'enc0-256', 'two-bcb', 'report'))
+    if kind == 'report':
+        # the policy node itself originates a bundle: a status report about a bundle it received
+        return dict(scenario='bpsec_bcb', kind='report-' + ch.choice('ralg', ('128', '256')), plen=ch.choice('plen', (1, 40, 300)), others=0,
+                    pri_crc=ch.choice('pc', (0, 2, 1)), blk_crc=ch.choice('bc', (0, 1, 2)), accept=True, dst_key='right',
+                    rflags=ch.choice('rflags', (0x20000, 0x24000, 0x20040, 0x24040)), window=0, wsize=0, falg=1, tgt_ext=False, fixup=True)
     if kind == 'two-bcb':
         # two confidentiality blocks of a foreign source, each over its own target and with its own key
         return dict(scenario='bpsec_bcb', kind=kind, plen=ch.choice('plen', (1, 8, 40)), others=ch.weighted('others', (2, 3, 1)),
@@ -45,6 +50,8 @@ def gen(ch, tier):
 def _kid(plan):
     if plan['kind'] == 'foreign':
         return 'enc128' if plan['falg'] == 1 else 'enc256'
+    if plan['kind'].startswith('report-'):
+        return 'enc' + plan['kind'][7:]
     return 'enc' + plan['kind'][5:]
 
 
@@ -104,7 +111,11 @@ class Run:
 
 
 def execute(plan, sched, verbose=False):
-    har = sc.make_world(sched, _policy(plan), _dst_keys(plan), plan['accept'], verbose)
+    extra = None
+    if plan['kind'].startswith('report-'):
+        extra = {'s': dict(node_id='dtn://s/', rx_routes=[['^dtn://s/.*$', 'deliver']], tx_routes=[['.*', 'dtn://d/', None, 'd']],
+                           security=dict(keys=list(sc.KEYS.values()), policies=_policy(plan)))}
+    har = sc.make_world(sched, _policy(plan), _dst_keys(plan), plan['accept'], verbose, extra_nodes=extra)
     run = Run()
     run.har = har
     run.wld = har.wld
@@ -273,9 +284,67 @@ def _drive_two(run, plan, har):
                 return
 
 
+def _drive_report(run, plan, har):
+    ''' The node that applies the confidentiality policy originates a bundle of its own: the status report about a bundle it
+    was handed. Whatever leaves it with a confidentiality block over the payload must carry ciphertext there. '''
+    stats = run.stats
+    cfg = bc.digest({key: plan[key] for key in ('kind', 'plen', 'pri_crc', 'blk_crc', 'rflags')})
+    stats['kind.report'] = 1
+    for index in range(3):
+        seqno = C03.seq_code(index)
+        pri = dict(flags=plan['rflags'], crc_type=plan['pri_crc'], destination='dtn://s/app', source='dtn://x/', report_to='dtn://d/rpt',
+                   create_time=820000000000, seqno=seqno, lifetime=3600000)
+        subject = rfc9171.encode_bundle(pri, [dict(type=1, num=1, flags=0, crc_type=plan['blk_crc'], btsd=plaintext(plan, index))])
+        mark = len(har.cl_out['s'])
+        har.receive('s', subject)
+        har.settle()
+        stats['evals'] += 1
+        run.keys.append((cfg, 'report', index))
+        for out in har.cl_out['s'][mark:]:
+            try:
+                dec = rfc9171.decode_bundle(out['data'])
+            except rfc9171.Malformed:
+                continue
+            if not dec['primary']['flags'] & 0x2:
+                continue
+            bcbs = sc.sec_blocks(dec, rfc9171.TYPE_BCB)
+            if not bcbs:
+                stats['probe.report_without_bcb'] = 1
+                continue
+            stats['probe.report_with_bcb'] = 1
+            asb = bpsec_cose.parse_asb(bcbs[0]['btsd'])
+            if 1 not in asb['targets']:
+                continue
+            wire_tgt = rfc9171.payload(dec)
+            try:
+                rep = rfc9171.decode_status_report(wire_tgt)
+            except Exception:  # pylint: disable=broad-except
+                rep = None
+            if rep is not None:
+                run.viols.append(('wire', 'report-plaintext-on-wire', 'a status report left the node with a confidentiality block over its payload, and the payload on the wire is the readable administrative record (%d octets)' % len(wire_tgt)))
+                return
+            (scope, addl) = bpsec_cose.scope_and_protected(asb)
+            pix = asb['targets'].index(1)
+            tgt = [blk for blk in dec['blocks'] if blk['num'] == 1][0]
+            try:
+                aad = bpsec_cose.external_aad(dec, bcbs[0], tgt, scope, asb['source_raw'], addl)
+                got = bpsec_cose.dec0(sc.RAW_KEYS[_kid(plan).encode()], asb['results'][pix][0][1], aad, tgt['btsd'])
+                rfc9171.decode_status_report(got)
+            except Exception:  # pylint: disable=broad-except
+                run.viols.append(('wire', 'report-reference-cannot-decrypt', 'the independent AES-GCM / AAD construction does not recover a status report from the encrypted report that was transmitted'))
+                return
+            (rec, dels, _outs) = sc.deliver(har, out['data'])
+            if len(dels) != 1 or dels[0]['payload'] != got:
+                run.viols.append(('unmodified', 'report-not-recovered', 'the receiver with the key did not recover the status report (deliveries %d, actions %s reason %s error %s)' % (
+                    len(dels), rec['actions'], rec['reason'], rec['error'])))
+                return
+
+
 def _drive(run, plan, har):
     if plan['kind'] == 'two-bcb':
         return _drive_two(run, plan, har)
+    if plan['kind'].startswith('report-'):
+        return _drive_report(run, plan, har)
     stats = run.stats
     cfg = bc.digest({key: plan[key] for key in ('kind', 'plen', 'others', 'pri_crc', 'blk_crc', 'dst_key', 'accept', 'falg', 'scope', 'tgt_ext', 'split_assoc')})
     stats['kind.' + ('foreign' if plan['kind'] == 'foreign' else 'enc0')] = 1
